@@ -747,5 +747,443 @@ theorem Sim.fold {e : Env} {U : List Mod} (hU : ∀ a ∈ U, ∀ b ∈ U, a.file
       · have hany' : (applicable e m.d).any (taken.contains ·) = false := by simpa using hany
         simp only [hany', Bool.false_eq_true, if_false]
         exact ih _ _ _ hrest (h3 hin hany')
+/-! Part 7: the facts about a run of the current code that goes through -/
+
+/-- everything the clauses need to know about the final state `(ms, s)` of a run over directory `d` -/
+structure RunFacts (e : Env) (owner : Nat) (d : Dir) (ms : List Mod) (s : InitSt) : Prop where
+  listed : Listed e owner d ms
+  inv    : InitInv e.pers (baseOpts e.pers) ms s
+  state  : s = foldS e.pers (forcedMods (ms.map Mod.static) (miscNames e.misc) ++ ms.map Mod.static)
+             ⟨baseOpts e.pers, [], []⟩
+
+theorem runFacts (e : Env) (owner : Nat) (d : Dir) (hn : (d.files.map (·.fname)).Nodup) :
+    let ls := loadFilesG Tie.beats e.uid owner e.pers (d.files.map (persFirstFile e.pers))
+    let r := initPhase e.pers e.misc (listSort Tie.cmpF ls.mods)
+    RunFacts e owner d r.1 r.2 := by
+  intro ls r
+  have hyp := regHyp_persFirst e.uid owner e.pers d.files hn
+  have inv := regInv_final Tie.beats_ord e.uid owner e.pers _ hyp
+  have hperm := listSort_perm Tie.cmpF_totalPre ls.mods
+  have hin0 : ∀ m ∈ ls.mods, m.active = false := mods_inactive Tie.beats_ord hyp
+  have hin : ∀ m ∈ listSort Tie.cmpF ls.mods, m.active = false := fun m hm => hin0 m (hperm.mem_iff.mp hm)
+  have hnd : ((listSort Tie.cmpF ls.mods).map (·.file)).Nodup :=
+    (hperm.map _).nodup_iff.mpr (mods_files_nodup Tie.beats_ord hyp)
+  have hst : r.1.map Mod.static = listSort Tie.cmpF ls.mods := by
+    rw [initPhase_static, map_static_of_inactive hin]
+  -- membership both ways between the final list and the registered modules
+  have mem1 : ∀ m ∈ r.1, m.static ∈ ls.mods := by
+    intro m hm
+    have : m.static ∈ r.1.map Mod.static := List.mem_map.mpr ⟨m, hm, rfl⟩
+    rw [hst] at this
+    exact hperm.mem_iff.mp this
+  have mem2 : ∀ m0 ∈ ls.mods, ∃ m ∈ r.1, m.static = m0 := by
+    intro m0 hm0
+    have : m0 ∈ r.1.map Mod.static := by rw [hst]; exact hperm.mem_iff.mpr hm0
+    simpa [List.mem_map] using this
+  refine ⟨⟨hn, ?_, ?_, ?_, ?_⟩, initPhase_inv e.pers e.misc _ hnd hin, ?_⟩
+  · intro m hm
+    obtain ⟨f', hf', hc⟩ := inv.r1 _ (mem1 m hm)
+    simp only [List.mem_map] at hf'
+    obtain ⟨f, hf, rfl⟩ := hf'
+    rw [cand_eq_candidate] at hc
+    cases hcc : candidate e owner f with
+    | none => rw [hcc] at hc; cases hc
+    | some c =>
+      rw [hcc] at hc
+      exact ⟨f, hf, c, hcc, (Option.some.inj hc).symm⟩
+  · intro f hf c hc
+    have hc' : cand e.uid owner e.pers (persFirstFile e.pers f) = some (modOf f.fname c) := by
+      rw [cand_eq_candidate, hc]; rfl
+    obtain ⟨m0, hm0, hk, hnb⟩ := inv.r2 _ (List.mem_map.mpr ⟨f, hf, rfl⟩) _ hc'
+    obtain ⟨m, hm, hms⟩ := mem2 m0 hm0
+    subst hms
+    exact ⟨m, hm, hk, hnb⟩
+  · have : r.1.map Mod.key = (r.1.map Mod.static).map Mod.key := by
+      simp [List.map_map, Function.comp_def, static_key]
+    rw [this, hst]
+    exact (hperm.map _).nodup_iff.mpr inv.r3
+  · rw [hst]; exact listSort_sorted Tie.cmpF_totalPre ls.mods
+  · rw [hst]; exact initPhase_state e.pers e.misc _
+
+/-! Part 8: clause 7 -/
+
+theorem colon_base (pers : Nat) : ':' ∈ baseOpts pers := by
+  unfold baseOpts
+  simp only [List.mem_append]
+  left
+  decide
+
+theorem find?_congr_mem {α : Type} (p q : α → Bool) : ∀ (l : List α), (∀ x ∈ l, p x = q x) →
+    l.find? p = l.find? q := by
+  intro l
+  induction l with
+  | nil => intro _; rfl
+  | cons x r ih =>
+    intro h
+    simp only [List.find?_cons, h x (by simp)]
+    cases q x with
+    | true => rfl
+    | false => exact ih (fun y hy => h y (by simp [hy]))
+
+theorem filterMap_congr_mem {α β : Type} (f g : α → Option β) : ∀ (l : List α), (∀ x ∈ l, f x = g x) →
+    l.filterMap f = l.filterMap g := by
+  intro l
+  induction l with
+  | nil => intro _; rfl
+  | cons x r ih =>
+    intro h
+    simp only [List.filterMap_cons, h x (by simp)]
+    rw [ih (fun y hy => h y (by simp [hy]))]
+
+theorem pi_static (m : Mod) : m.static.pi = (m.file, m.d) := rfl
+
+/-- the activation sequence of the specification is the model's: forced modules, then the list -/
+theorem seqOf_eq {e : Env} {owner : Nat} {d : Dir} {ms : List Mod} (h : Listed e owner d ms)
+    (hmisc : ∀ s, e.misc = some s → splitNames s = splitComma s) :
+    seqOf e (candsOf e owner d) (ms.map (·.file)) =
+      (forcedMods (ms.map Mod.static) (miscNames e.misc) ++ ms.map Mod.static).map Mod.pi := by
+  have hdesc : ∀ m ∈ ms, descOf (candsOf e owner d) m.file = some (m.file, m.d) := by
+    intro m hm; simp [descOf, h.candOf hm, Mod.cOf]
+  have hnames : specNames e.misc = miscNames e.misc := by
+    unfold miscNames specNames
+    cases hm : e.misc with
+    | none => rfl
+    | some s => simp only; exact (hmisc s hm).symm
+  unfold seqOf
+  rw [hnames, List.map_append]
+  congr 1
+  · -- forced part, name by name
+    unfold forcedMods
+    rw [List.map_filterMap]
+    apply filterMap_congr_mem
+    intro nm _
+    rw [List.find?_map, List.find?_map]
+    have hq : ∀ m ∈ ms, (isForced (candsOf e owner d) nm ∘ fun x => x.file) m = isMisc nm m := by
+      intro m hm
+      simp only [Function.comp, isForced, h.candOf hm, Mod.cOf, isMisc]
+    rw [find?_congr_mem _ _ ms hq]
+    have hcomp : (isMisc nm ∘ Mod.static) = isMisc nm := by funext m; rfl
+    rw [hcomp]
+    cases hf : ms.find? (isMisc nm) with
+    | none => rfl
+    | some m =>
+      have hm := List.mem_of_find?_eq_some hf
+      simp only [Option.map_some, Option.bind_some, hdesc m hm, pi_static]
+  · -- the list itself
+    rw [List.filterMap_map, List.map_map]
+    have : ∀ (l : List Mod), (∀ m ∈ l, m ∈ ms) →
+        l.filterMap (descOf (candsOf e owner d) ∘ fun x => x.file) = l.map (Mod.pi ∘ Mod.static) := by
+      intro l
+      induction l with
+      | nil => intro _; rfl
+      | cons m r ih =>
+        intro hsub
+        simp only [List.filterMap_cons, Function.comp, hdesc m (hsub m (by simp)), List.map_cons, pi_static]
+        rw [← ih (fun x hx => hsub x (by simp [hx]))]
+    exact this ms (fun m hm => hm)
+
+theorem clause7_nil {e : Env} {owner : Nat} {d : Dir} {ms : List Mod} {s : InitSt}
+    (hf : RunFacts e owner d ms s) (hmisc : ∀ x, e.misc = some x → splitNames x = splitComma x)
+    (o : Obs) (hl : o.listed = ms.map (fun m => (m.file, m.active))) (hc : o.calls = s.calls) :
+    clause7 e (candsOf e owner d) o = [] := by
+  have h := hf.listed
+  have hlf : o.listed.map (·.1) = ms.map (·.file) := by
+    rw [hl]; simp [List.map_map, Function.comp_def]
+  unfold clause7
+  simp only [hlf]
+  rw [seqOf_eq h hmisc]
+  split
+  · rfl
+  · rename_i hnf
+    -- no module of the list has a failing initialiser
+    have hok : ∀ a ∈ ms.map Mod.static, a.d.init ≠ some false := by
+      intro a ha hbad
+      apply hnf
+      simp only [List.any_eq_true]
+      exact ⟨a.pi, List.mem_map.mpr ⟨a, List.mem_append.mpr (Or.inr ha), rfl⟩, by simp [Mod.pi, hbad]⟩
+    have hU : ∀ a ∈ ms.map Mod.static, ∀ b ∈ ms.map Mod.static, a.file = b.file → a.d = b.d := by
+      intro a ha b hb hab
+      simp only [List.mem_map] at ha hb
+      obtain ⟨a0, ha0, rfl⟩ := ha
+      obtain ⟨b0, hb0, rfl⟩ := hb
+      have : a0 = b0 := h.eq_of_file ha0 hb0 hab
+      rw [this]
+    have hsub : ∀ m ∈ forcedMods (ms.map Mod.static) (miscNames e.misc) ++ ms.map Mod.static,
+        m ∈ ms.map Mod.static := by
+      intro m hm
+      simp only [List.mem_append] at hm
+      rcases hm with hm | hm
+      · simp only [forcedMods, List.mem_filterMap] at hm
+        obtain ⟨nm, _, hfind⟩ := hm
+        exact List.mem_of_find?_eq_some hfind
+      · exact hm
+    have h0 : Sim e (ms.map Mod.static) ⟨baseOpts e.pers, [], []⟩ (baseOpts e.pers) [] :=
+      ⟨fun c => Iff.rfl, colon_base e.pers, by simp, by simp, by simp, by simp, by simp⟩
+    obtain ⟨taken', hsim⟩ := Sim.fold hU _ _ _ _ hsub h0
+    rw [← hf.state] at hsim
+    generalize greedy e _ (baseOpts e.pers) [] = act at hsim
+    -- active  <->  registered  <->  in `act`
+    have hact : ∀ m ∈ ms, m.active = act.contains m.file := by
+      intro m hm
+      apply Bool.eq_iff_iff.mpr
+      simp only [List.contains_eq_mem, decide_eq_true_eq]
+      rw [← hsim.regs]
+      constructor
+      · intro ha
+        obtain ⟨p, hp, hpf⟩ := hf.inv.act m hm ha
+        exact List.mem_map.mpr ⟨p, hp, hpf⟩
+      · intro hr
+        obtain ⟨p, hp, hpf⟩ := List.mem_map.mp hr
+        obtain ⟨m', hm', hm'f, _, hm'a⟩ := hf.inv.regs p hp
+        have : m' = m := h.eq_of_file hm' hm (hm'f.trans hpf)
+        subst this
+        rcases hm'a with ha | hbad
+        · exact ha
+        · exact absurd hbad (hok m'.static (List.mem_map.mpr ⟨m', hm', rfl⟩))
+    simp only [List.append_eq_nil_iff, List.map_eq_nil_iff, List.filter_eq_nil_iff]
+    refine ⟨⟨?_, ?_⟩, ?_⟩
+    · intro x hx
+      rw [hl] at hx
+      simp only [List.mem_map] at hx
+      obtain ⟨m, hm, rfl⟩ := hx
+      simp [hact m hm]
+    · intro f hfc
+      rw [hc] at hfc
+      simp [hsim.calls f hfc]
+    · intro f hfa
+      obtain ⟨a, ha, haf⟩ := hsim.univ f hfa
+      simp only [List.mem_map] at ha
+      obtain ⟨m, hm, rfl⟩ := ha
+      have hfile : m.file = f := haf
+      rw [← hfile, h.candOf hm]
+      simp only [Mod.cOf, Bool.and_eq_true, Bool.not_eq_true', not_and, Bool.not_eq_false]
+      intro hi
+      have hthis : m.file ∈ s.calls :=
+        hsim.ran m.static (List.mem_map.mpr ⟨m, hm, rfl⟩) (by rw [← hfile] at hfa; exact hfa) hi
+      rw [hc]
+      simpa using hthis
+
+/-! Part 9: clause 8 -/
+
+theorem takesArg_of_mem : ∀ (opts : Str) (c : Char), c ∈ opts → ∃ a, takesArg opts c = some a := by
+  intro opts
+  induction opts with
+  | nil => intro c h; simp at h
+  | cons x rest ih =>
+    intro c h
+    simp only [takesArg]
+    by_cases hx : x = c
+    · simp [hx]
+    · simp only [hx, if_false]
+      simp only [List.mem_cons] at h
+      rcases h with h | h
+      · exact absurd h.symm hx
+      · exact ih c h
+
+theorem optUse_handled (r : Result) (c : Char) (f : Str) (a : Bool) (h : optUse r c = .handled f a) :
+    ∃ m ∈ r.mods, m.file = f ∧ m.active = true ∧ ∃ row ∈ m.d.opts.getD [], row.c = c := by
+  unfold optUse at h
+  split at h
+  · simp at h
+  · split at h
+    · rename_i m hf
+      simp only [OptUse.handled.injEq] at h
+      have hm := List.mem_of_find?_eq_some hf
+      have hp := List.find?_some hf
+      simp only [Bool.and_eq_true, List.any_eq_true, beq_iff_eq] at hp
+      obtain ⟨row, hrow, hc⟩ := hp.2
+      exact ⟨m, hm, h.1, hp.1, row, hrow, hc⟩
+    · simp at h
+
+theorem clause8_nil {e : Env} {owner : Nat} {d : Dir} {ms : List Mod} {s : InitSt}
+    (hf : RunFacts e owner d ms s) (r : Result) (hrm : r.mods = ms) (hro : r.opts = s.opts)
+    (o : Obs) (hl : o.listed = ms.map (fun m => (m.file, m.active)))
+    (letters : List Char) (hu : o.uses = letters.map (fun c => (c, optUse r c))) :
+    clause8 e (candsOf e owner d) o = [] := by
+  have h := hf.listed
+  have hactive : ∀ f, f ∈ activeFiles o ↔ ∃ m ∈ ms, m.file = f ∧ m.active = true := by
+    intro f
+    unfold activeFiles
+    rw [hl]
+    simp only [List.mem_map, List.mem_filter]
+    constructor
+    · rintro ⟨x, ⟨⟨m, hm, rfl⟩, ha⟩, rfl⟩; exact ⟨m, hm, rfl, ha⟩
+    · rintro ⟨m, hm, rfl, ha⟩; exact ⟨(m.file, m.active), ⟨⟨m, hm, rfl⟩, ha⟩, rfl⟩
+  unfold clause8
+  simp only [hu, List.flatMap_eq_nil_iff, List.mem_map]
+  rintro ⟨c, u⟩ ⟨c0, _, hcu⟩
+  simp only [Prod.mk.injEq] at hcu
+  obtain ⟨rfl, rfl⟩ := hcu
+  -- no active module has the character as an applicable option unless the model hands it over
+  have key : (activeFiles o).any (applOf e (candsOf e owner d) · c0) = true →
+      ∃ f a, optUse r c0 = .handled f a := by
+    intro hany
+    simp only [List.any_eq_true] at hany
+    obtain ⟨f, hfa, hfc⟩ := hany
+    obtain ⟨m, hm, hmf, hma⟩ := (hactive f).mp hfa
+    unfold applOf at hfc
+    rw [← hmf, h.candOf hm] at hfc
+    simp only [Mod.cOf, List.contains_eq_mem, decide_eq_true_eq] at hfc
+    -- the character is in the option string
+    obtain ⟨p, hp, hpf⟩ := hf.inv.act m hm hma
+    obtain ⟨m', hm', hm'f, hpc, _⟩ := hf.inv.regs p hp
+    have hmm : m' = m := h.eq_of_file hm' hm (hm'f.trans hpf)
+    subst hmm
+    have hin : c0 ∈ r.opts := by
+      rw [hro, hf.inv.opts]
+      simp only [List.mem_append, List.mem_flatMap]
+      right
+      exact ⟨p, hp, by rw [hpc]; exact mem_rowChars_of e.pers _ c0 hfc⟩
+    obtain ⟨a, ha⟩ := takesArg_of_mem r.opts c0 hin
+    -- and an active module has it in its table
+    have hrow : ∃ row ∈ m'.d.opts.getD [], row.c = c0 := by
+      rw [applicable_eq] at hfc
+      simp only [List.mem_map, List.mem_filter] at hfc
+      obtain ⟨row, ⟨hr, _⟩, hrc⟩ := hfc
+      exact ⟨row, hr, hrc⟩
+    have hfind : (r.mods.find? fun m => m.active && (m.d.opts.getD []).any (·.c == c0)).isSome = true := by
+      rw [List.find?_isSome]
+      refine ⟨m', by rw [hrm]; exact hm, ?_⟩
+      simp only [hma, Bool.true_and, List.any_eq_true, beq_iff_eq]
+      exact hrow
+    unfold optUse
+    rw [ha]
+    simp only
+    cases hfd : r.mods.find? fun m => m.active && (m.d.opts.getD []).any (·.c == c0) with
+    | none => rw [hfd] at hfind; cases hfind
+    | some x => exact ⟨x.file, a, rfl⟩
+  cases hou : optUse r c0 with
+  | handled f a =>
+    obtain ⟨m, hm, hmf, hma, row, hrow, hrc⟩ := optUse_handled r c0 f a hou
+    rw [hrm] at hm
+    have h1 : (activeFiles o).contains f = true := by
+      simp only [List.contains_eq_mem, decide_eq_true_eq]
+      exact (hactive f).mpr ⟨m, hm, hmf, hma⟩
+    have h2 : hasOpt (candsOf e owner d) f c0 = true := by
+      unfold hasOpt
+      rw [← hmf, h.candOf hm]
+      simp only [Mod.cOf, List.any_eq_true, beq_iff_eq]
+      exact ⟨row, hrow, hrc⟩
+    simp only [h1, h2, Bool.and_self, if_true]
+  | invalid =>
+    cases hany : (activeFiles o).any (applOf e (candsOf e owner d) · c0) with
+    | false => simp
+    | true => obtain ⟨f, a, hh⟩ := key hany; rw [hou] at hh; cases hh
+  | nohandler =>
+    cases hany : (activeFiles o).any (applOf e (candsOf e owner d) · c0) with
+    | false => simp
+    | true => obtain ⟨f, a, hh⟩ := key hany; rw [hou] at hh; cases hh
+/-! Part 10: all clauses at once -/
+
+theorem candsOf_empty_iff (e : Env) (owner : Nat) (d : Dir) :
+    candsOf e owner d = [] ↔ ∀ f ∈ d.files, candidate e owner f = none := by
+  unfold candsOf
+  simp only [List.filterMap_eq_nil_iff, Option.map_eq_none_iff]
+
+theorem loadAllPF_eq (e : Env) :
+    Tie.loadAllPF e = loadDirG Tie.beats Tie.cmpF (persFirstEnv e) (persFirstDir e.pers (chooseDir e)) := by
+  unfold Tie.loadAllPF Tie.loadAll Tie.loadDir
+  rw [chooseDir_persFirst]
+
+/-- the model of the code as it is satisfies every clause of the specification, for every
+    environment, directory (with distinct entry names), -M list (that the plain comma split reads
+    like list_split does) and every set of option characters tried -/
+theorem check_obsOf_nil (e : Env) (letters : List Char)
+    (hn : ((chooseDir e).files.map (·.fname)).Nodup)
+    (hmisc : ∀ s, e.misc = some s → splitNames s = splitComma s) :
+    check e (obsOf (Tie.loadAllPF e) letters) = [] := by
+  rw [loadAllPF_eq]
+  have hown : (persFirstEnv e).owner = e.owner := rfl
+  have huid : (persFirstEnv e).uid = e.uid := rfl
+  have hpers : (persFirstEnv e).pers = e.pers := rfl
+  have hmi : (persFirstEnv e).misc = e.misc := rfl
+  have hpath : (persFirstDir e.pers (chooseDir e)).path = (chooseDir e).path := rfl
+  have hfiles : (persFirstDir e.pers (chooseDir e)).files = (chooseDir e).files.map (persFirstFile e.pers) := rfl
+  unfold check
+  rw [dirFor_eq]
+  cases ho : e.owner with
+  | none =>
+    rw [loadDir_fatal_owner _ _ _ _ (by rw [hown]; exact ho)]
+    simp [obsOf]
+  | some owner =>
+    simp only
+    rw [← pathOk_eq_all]
+    cases hp : pathOk e.uid owner (chooseDir e).path with
+    | false =>
+      rw [loadDir_fatal_path _ _ _ _ owner (by rw [hown]; exact ho) (by rw [huid, hpath]; exact hp)]
+      simp [obsOf, clause1]
+    | true =>
+      simp only [Bool.not_true, Bool.false_eq_true, if_false]
+      have hyp := regHyp_persFirst e.uid owner e.pers (chooseDir e).files hn
+      have inv := regInv_final Tie.beats_ord e.uid owner e.pers _ hyp
+      have hop : (loadFilesG Tie.beats e.uid owner e.pers ((chooseDir e).files.map (persFirstFile e.pers))).opened =
+          ((chooseDir e).files.filter (secure e.uid owner)).map (·.fname) := by
+        rw [inv.op, opened_persFirst]
+      by_cases hc : (loadFilesG Tie.beats e.uid owner e.pers
+          ((chooseDir e).files.map (persFirstFile e.pers))).count = 0
+      · -- nothing loadable
+        have hempty : candsOf e owner (chooseDir e) = [] := by
+          rw [candsOf_empty_iff]
+          intro f hf
+          have := (inv.r5.mp hc) (persFirstFile e.pers f) (List.mem_map.mpr ⟨f, hf, rfl⟩)
+          rw [cand_eq_candidate] at this
+          cases hcc : candidate e owner f with
+          | none => rfl
+          | some c => rw [hcc] at this; cases this
+        rw [loadDir_fatal_count _ _ _ _ owner (by rw [hown]; exact ho) (by rw [huid, hpath]; exact hp)
+          (by rw [huid, hpers, hfiles]; exact hc)]
+        simp only [hempty, List.isEmpty_nil, if_true]
+        have ho1 : (obsOf ⟨true, [], [], baseOpts (persFirstEnv e).pers,
+            (loadFilesG Tie.beats (persFirstEnv e).uid owner (persFirstEnv e).pers
+              (persFirstDir e.pers (chooseDir e)).files).opened, []⟩ letters).opened =
+            ((chooseDir e).files.filter (secure e.uid owner)).map (·.fname) := hop
+        rw [clause1_nil e owner _ _ ho1, clause3_nil e owner _ _ hn ho1, clause3b_nil e owner _ _ ho1]
+        simp [obsOf]
+      · have hne : (candsOf e owner (chooseDir e)).isEmpty = false := by
+          cases hemp : (candsOf e owner (chooseDir e)).isEmpty with
+          | false => rfl
+          | true =>
+            exfalso
+            apply hc
+            rw [inv.r5]
+            intro f' hf'
+            simp only [List.mem_map] at hf'
+            obtain ⟨f, hf, rfl⟩ := hf'
+            rw [cand_eq_candidate]
+            have hall := (candsOf_empty_iff e owner (chooseDir e)).mp (List.isEmpty_iff.mp hemp)
+            rw [hall f hf]; rfl
+        rw [loadDir_ok _ _ _ _ owner (by rw [hown]; exact ho) (by rw [huid, hpath]; exact hp)
+          (by rw [huid, hpers, hfiles]; exact hc)]
+        simp only [hne, Bool.false_eq_true, if_false]
+        have hrf := runFacts e owner (chooseDir e) hn
+        simp only at hrf
+        -- name the pieces of the final state
+        generalize hr : initPhase e.pers e.misc (listSort Tie.cmpF (loadFilesG Tie.beats e.uid owner e.pers
+          ((chooseDir e).files.map (persFirstFile e.pers))).mods) = r at hrf
+        have hres : initPhase (persFirstEnv e).pers (persFirstEnv e).misc
+            (listSort Tie.cmpF (loadFilesG Tie.beats (persFirstEnv e).uid owner (persFirstEnv e).pers
+              (persFirstDir e.pers (chooseDir e)).files).mods) = r := hr
+        rw [hres]
+        have hop' : (loadFilesG Tie.beats (persFirstEnv e).uid owner (persFirstEnv e).pers
+            (persFirstDir e.pers (chooseDir e)).files).opened =
+            ((chooseDir e).files.filter (secure e.uid owner)).map (·.fname) := hop
+        rw [hop']
+        generalize hres2 : (⟨false, r.1, r.2.calls, r.2.opts,
+          ((chooseDir e).files.filter (secure e.uid owner)).map (·.fname), r.2.regs⟩ : Result) = res
+        have hl : (obsOf res letters).listed = r.1.map (fun m => (m.file, m.active)) := by
+          rw [← hres2]; rfl
+        have hlf : (obsOf res letters).listed.map (·.1) = r.1.map (·.file) := by
+          rw [hl]; simp [List.map_map, Function.comp_def]
+        have hfat : (obsOf res letters).fatal = false := by rw [← hres2]; rfl
+        have hopn : (obsOf res letters).opened =
+            ((chooseDir e).files.filter (secure e.uid owner)).map (·.fname) := by rw [← hres2]; rfl
+        have hcl : (obsOf res letters).calls = r.2.calls := by rw [← hres2]; rfl
+        simp only [hfat, Bool.false_eq_true, if_false, hlf]
+        rw [clause1_nil e owner _ _ hopn, clause3_nil e owner _ _ hn hopn, clause3b_nil e owner _ _ hopn,
+          clause4_nil hrf.listed, clause4b_nil hrf.listed, clause5_nil hrf.listed, clause5b_nil hrf.listed,
+          ordOk_nil (fun m hm => hrf.listed.candOf hm) hrf.listed.sorted,
+          clause7_nil hrf hmisc _ hl hcl,
+          clause8_nil hrf res (by rw [← hres2]) (by rw [← hres2]) _ hl letters rfl]
+        rfl
 
 end PdshVerif.Mod
